@@ -84,8 +84,8 @@ def check_casts(ctx, B, rule, include_float=True, reviewed=None):
         where = ctx.where(B, ln=st['ln'])
         if rng[0] >= to[0] and rng[1] <= to[1]:
             ctx.ok(rule, inst, 'value range [%s, %s] fits %s' % (rng[0], rng[1], rv['to']), where)
-        elif inst in reviewed:
-            ctx.ok(rule, inst, 'reviewed: ' + reviewed[inst], where)
+        elif _reviewed(reviewed, inst):
+            ctx.ok(rule, inst, 'reviewed: ' + _reviewed(reviewed, inst), where)
         elif R.uninterpreted_mentions(bb, c):
             ctx.undecided(rule, inst, 'a dominating condition mentions the value but its range [%s, %s] '
                           'could not be shown to fit %s' % (rng[0], rng[1], rv['to']), where)
